@@ -10,6 +10,8 @@ _TB = ("Trusted: Lean kernel + propext/Classical.choice/Quot.sound; hand-written
 ENGINES = [
     {"name": "conc", "path": "go/cmd/corr/conc.go", "serves_properties": ["C06"],
      "kind_free_text": "concurrency: goroutines on one shared WAF + WAF builders, built with -race; every outcome vs sequential outcome and vs the Lean model"},
+    {"name": "fault", "path": "tools/faults.py", "serves_properties": ["C20"],
+     "kind_free_text": "fault injection: strace-injected syscall failures (one per run, placement verified) into scripted transactions run by go/cmd/corr/faultrun.go; observed report vs the Lean fault model"},
     {"name": "nopanic", "path": "go/cmd/corr/nopanic.go", "serves_properties": ["C07"],
      "kind_free_text": "robustness: registry-driven configurations + byte mutations + random API call sequences under recover() and a watchdog"},
     {"name": "http", "path": "go/cmd/corr/httpeng.go", "serves_properties": ["C18"],
@@ -99,6 +101,17 @@ CLAIMED = {
              "from an entry marked deleted (C06_memoize, C06_memoize_live). Tied to /repo by `conc` under the race detector.",
         note=_TB + "Partial: the Go memory model is outside Lean; races are shown by the race detector on the schedules that occur.",
         ref="6/C06", engine="conc"),
+    "C20": dict(
+        text="Lean 4 theorems over a model of the file-touching paths (BodyBuffer Write/Reader/Reset, multipart upload "
+             "loop, ProcessRequestBody error path, AuditLog body read, Close) on an abstract file system with an arbitrary "
+             "fault oracle (any calls fail, any number): a Write/upload loop that reports success had no failed primitive and "
+             "stored exactly the data; an upload error raises MULTIPART_STRICT_ERROR; a failed body read sets REQBODY_ERROR and "
+             "leaves REQUEST_BODY unpopulated; every temp file that exists is registered (invariant over every script), and "
+             "after Close no temp file exists or Close returned an error. Tied to /repo by the `fault` sweep: strace-injected "
+             "syscall failures into scripted real transactions, report compared with the model.",
+        note=_TB + "Partial: only failures at the modelled system calls, one per run in the sweep; strace (ptrace) is part of "
+                   "the trusted base of this check.",
+        ref="6/C20", engine="fault"),
     "C07": dict(
         text="Lean 4: every modelled unit is a total function (termination checked by Lean), and for the sites whose safety "
              "is arithmetic or nil-ness the Go operation is modelled as partial and proved never to fail: the body-write slice "
